@@ -115,6 +115,16 @@ def cutAtPanic : List Op → List (Option (Nat × Nat)) → List Op
   | op :: _, none :: _ => [op]
   | _, _ => []
 
+/-- (kind, range) of every range-carrying node, pre-order in struct order (= `derive(Debug)` order) -/
+partial def rangedNodes : C12.Tree → List (Nat × C12.Range)
+  | .leaf _ => []
+  | .none => []
+  | .some t => rangedNodes t
+  | .list xs => xs.flatMap rangedNodes
+  | .node k r fs => (match r with | some x => [(k, x)] | none => []) ++ fs.flatMap rangedNodes
+
+def kindName (k : Nat) : String := (C12.Gen.kindNames[k]?).getD s!"kind{k}"
+
 def showLRange (r : LRange) : String := s!"{r.1.1},{r.1.2}-{r.2.1},{r.2.2}"
 
 def orDash (xs : List String) : String := if xs.isEmpty then "-" else joinSep ";" xs
@@ -127,11 +137,11 @@ def handleFold (dbg : Bool) (src : List Nat) (t : C12.Tree) : String :=
     let seen := cutAtPanic hist (run dbg src hist)
     let fwd := decide (Forward src (initCursor src) seen)
     let ordered := decide (SrcOrdered realCfg src t)
-    let plain := C12.rangesOf t
+    let plain := rangedNodes t
     let lin := foldLocated realCfg (.linear dbg) src t
     let rnd := foldLocated realCfg .random src t
     let nodes := match lin with
-      | some lt => orDash (List.zipWith (fun (p : C12.Range) l => s!"{p.1}-{p.2}:{showLRange l}") plain lt.ranges)
+      | some lt => orDash (List.zipWith (fun (p : Nat × C12.Range) l => s!"{kindName p.1}:{p.2.1}-{p.2.2}:{showLRange l}") plain lt.ranges)
       | none => "-"
     let rnds := match rnd with
       | some lt => orDash (lt.ranges.map showLRange)
